@@ -395,3 +395,33 @@ package keeper
 //@   invariant #1 frame: forall j:Int :: 0 <= j && j < len(data.Htlcs) ==> has(htlcs, unhex(data.Htlcs[j].Id)) && get(htlcs, unhex(data.Htlcs[j].Id)) == data.Htlcs[j]
 //@                          && has(queue, data.Htlcs[j].ExpirationHeight, unhex(data.Htlcs[j].Id))
 //@ end
+
+// ---------------------------------------------------------------------------------------------
+// Message handlers (C03): what the signer sent is what is locked; only a correct secret claims
+
+//@ func msgServer.CreateHTLC
+//@   property C03
+//@   returns resp, err
+//@   requires height >= 0 && msg.TimeLock <= 34560
+//@   requires allSupWF && paramsValid && escrowInv && countersInv
+//@   requires addr(msg.Sender) != MOD && addr(msg.To) != MOD && (forall d:Str :: amt(msg.Amount, d) >= 0)
+//@   modifies bal, supply, htlcs, queue, supplies
+//@   ensures opened_as_signed: err == nil ==> has(htlcs, unhex(resp.Id)) && !old(has(htlcs, unhex(resp.Id))) && get(htlcs, unhex(resp.Id)).State == OPEN
+//@                   && get(htlcs, unhex(resp.Id)).Sender == msg.Sender && get(htlcs, unhex(resp.Id)).To == msg.To
+//@                   && get(htlcs, unhex(resp.Id)).Amount == msg.Amount && get(htlcs, unhex(resp.Id)).ExpirationHeight == height + msg.TimeLock
+//@                   && get(htlcs, unhex(resp.Id)).Transfer == msg.Transfer
+//@   ensures escrowed: err == nil && !msg.Transfer ==> bal == payIn(old(bal), addr(msg.Sender), msg.Amount)
+//@ end
+
+//@ func msgServer.ClaimHTLC
+//@   property C03
+//@   returns resp, err
+//@   let h = get(htlcs, unhex(msg.Id))
+//@   requires height >= 0
+//@   requires allSupWF && escrowInv && countersInv && allRecWF
+//@   modifies bal, supply, htlcs, queue, supplies
+//@   ensures only_open_with_preimage: err == nil ==> old(has(htlcs, unhex(msg.Id))) && h.State == OPEN
+//@                   && types.GetHashLock(unhex(msg.Secret), h.Timestamp) == unhex(h.HashLock)
+//@   ensures paid_to_recipient: err == nil && !h.Transfer ==> bal == payOut(old(bal), addr(h.To), h.Amount)
+//@   ensures completed: err == nil ==> get(htlcs, unhex(msg.Id)).State == COMPLETED
+//@ end
